@@ -54,6 +54,10 @@ def worker_main():
         seed = prng.run_seed(job["verif_seed"], job["prop"], idx)
         try:
             res = core.run_generated(wc, seed, job["tier"])
+        except core.ConfigRejected as e:
+            agg["configs_rejected"] += 1
+            agg["configs_rejected_example"] = "run index %d: %s" % (idx, e)
+            continue
         except core.HarnessError as e:
             agg["harness_errors"].append({"idx": idx, "seed": seed, "error": repr(e)})
             continue
@@ -96,7 +100,8 @@ def new_agg():
     return {"runs": 0, "steps": 0, "nontrivial": 0, "comparisons": 0, "max_ratio": 0.0,
             "probes": {}, "faults": {}, "faults_missed": {}, "states": set(), "transitions": set(),
             "seqs": set(), "seqs_nontrivial": set(), "digests": {}, "violations": [], "samples": [],
-            "harness_errors": [], "stopped_early": False, "run_wall": 0.0, "by_class": {}}
+            "harness_errors": [], "stopped_early": False, "run_wall": 0.0, "by_class": {}, "configs_rejected": 0,
+            "configs_rejected_example": ""}
 
 
 def fold(agg, idx, res, keep_digests):
@@ -127,8 +132,9 @@ def merge(parts):
     tot = new_agg()
     tot["wall"] = 0.0
     for a in parts:
-        for k in ("runs", "steps", "nontrivial", "comparisons", "run_wall"):
+        for k in ("runs", "steps", "nontrivial", "comparisons", "run_wall", "configs_rejected"):
             tot[k] += a[k]
+        tot["configs_rejected_example"] = tot["configs_rejected_example"] or a.get("configs_rejected_example", "")
         tot["max_ratio"] = max(tot["max_ratio"], a["max_ratio"])
         tot["wall"] = max(tot["wall"], a.get("wall", 0.0))
         for name in ("probes", "faults", "faults_missed", "by_class"):
@@ -259,6 +265,12 @@ def run_check(prop, tier, verif_seed, nruns=None, nworkers=None, write_evidence=
         print("HARNESS-ERROR property=%s nondeterminism: %d of %d re-executed runs differ (e.g. index %s)" % (
             prop, len(mism), len(self_idx), mism[0]))
         return 2
+    if tot["configs_rejected"]:
+        print("  note: %d of %d generated configurations were refused by a constructor of the code under test (e.g. %s)" % (
+            tot["configs_rejected"], n, tot["configs_rejected_example"]))
+        if tot["configs_rejected"] > 0.1 * n:
+            print("HARNESS-ERROR property=%s more than 10%% of the configurations cannot be constructed" % prop)
+            return 2
     if tot["harness_errors"]:
         e = tot["harness_errors"][0]
         print("HARNESS-ERROR property=%s %d runs crashed in the harness; first: index %s: %s" % (
@@ -354,6 +366,7 @@ def write_evidence_file(prop, tier, verif_seed, tot, wall, n, nworkers, self_pai
             "faults_scheduled_not_fired": tot["faults_missed"],
             "probes": tot["probes"],
             "runs_by_model": tot["by_class"],
+            "configurations_refused_by_constructors": tot["configs_rejected"],
             "determinism_selftest": {"pairs": self_pairs, "mismatches": self_mism,
                                      "how": "re-executed in other interpreters with another PYTHONHASHSEED and worker split; SHA-256 of the event log (ops, abstract states, raw result bytes) compared"},
             "known_findings_seen": {k: c for k, (_, c) in known_hits.items()},
